@@ -241,7 +241,7 @@ def check_props(pid: str, obl: Obligations, allowed_axioms=(), extra_targets=())
         gen_of = {"tx_consts.py": "gen/Consts.v", "tx_regex.py": "gen/Regexes.v",
                   "tx_skel.py": "gen/Skeletons.v", "tx_pure.py": "gen/Pure.v",
                   "tx_screen.py": "gen/ScreenSkel.v", "tx_locks.py": "gen/LockRegions.v",
-                  "tx_sizing.py": "gen/SizingSrc.v", "tx_decide.py": "gen/Decide.v", "tx_iter.py": "gen/IterSrc.v", "tx_chunks.py": "gen/ChunksSrc.v", "tx_query.py": "gen/QuerySrc.v", "tx_oldpad.py": "gen/OldPad.v", "tx_block.py": "gen/BlockSrc.v", "tx_zindex.py": "gen/ZIndexSrc.v", "tx_memo.py": "gen/MemoSrc.v", "tx_settings.py": "gen/SettingsSrc.v", "tx_queryprog.py": "gen/QueryProgSrc.v", "tx_cachekey.py": "gen/CacheKeySrc.v", "tx_attrfd.py": "gen/AttrFd.v"}
+                  "tx_sizing.py": "gen/SizingSrc.v", "tx_decide.py": "gen/Decide.v", "tx_iter.py": "gen/IterSrc.v", "tx_chunks.py": "gen/ChunksSrc.v", "tx_query.py": "gen/QuerySrc.v", "tx_oldpad.py": "gen/OldPad.v", "tx_block.py": "gen/BlockSrc.v", "tx_zindex.py": "gen/ZIndexSrc.v", "tx_memo.py": "gen/MemoSrc.v", "tx_settings.py": "gen/SettingsSrc.v", "tx_close.py": "gen/CloseSrc.v", "tx_queryprog.py": "gen/QueryProgSrc.v", "tx_cachekey.py": "gen/CacheKeySrc.v", "tx_attrfd.py": "gen/AttrFd.v"}
         pre_cone = set(cone(rel))
         for t in extra_targets:
             pre_cone |= set(cone(t[:-1]))
